@@ -48,6 +48,23 @@ CHECKS = [
      'technique': 'fault injection on generated handshake edits + '
                   'differential negotiation against a reference rule and an '
                   'independent peer'},
+    {'id': 'C06', 'memwire': True, 'level': 'fault_enumeration',
+     'text': 'Complete enumeration of victim role x strict-KEX x 9 '
+             'positions of the handshake/auth/session dialogue x message '
+             'types 1..104 x shapes (quick: 3 shapes, thorough: 4) x '
+             'credential scenario, injected by an independent peer holding '
+             'the real keys; plus keyless cleartext insertion / encrypted '
+             'drop around NEWKEYS (Terrapin shape) and generated pairs of '
+             'injections. Oracle: the victim either ends the connection '
+             'having done only a prefix of the untampered effect log, or '
+             'proceeds with an identical effect log and peer-visible '
+             'dialogue; strict KEX makes every pre-NEWKEYS injection fatal; '
+             'UNIMPLEMENTED must name the injected sequence number.',
+     'note': 'refpeer trusted as in C02; messages the dialogue calls for from '
+             'that role and phase are excluded by a table and counted; '
+             'effect log = security-relevant callbacks only.',
+     'technique': 'exhaustive fault enumeration (message type x phase x '
+                  'role) with a differential effect-log oracle'},
     {'id': 'C07', 'memwire': True,
      'text': 'Generated op-list programs (writes around window/packet '
              'boundaries, EOF, pause/resume, 1..3 channels, text encodings, '
